@@ -29,6 +29,7 @@ pub fn run(tier: &str) -> Result<Report, String> {
             // under different outer domains, wild-cards in duplicated sub-trees)
             let probe = NetCtx::new(b.clone(), label_families(b, 1)[0].1.clone(), "probe");
             fs.extend(templates(&probe.user, true, if tier == "quick" { 2 } else { 6 }).into_iter().filter(|f| f.uses_wild_or_dom()));
+            fs.extend(crate::formulas::restricted_scope_duplicates(&probe.user));
             if b.n >= 2 {
                 let pool = collision_alphabet(&probe.user);
                 let pool: Vec<_> = pool.into_iter().take(if tier == "quick" { 14 } else { 28 }).collect();
@@ -245,7 +246,7 @@ pub fn run(tier: &str) -> Result<Report, String> {
         rep.set("wide_models", json!(big));
     }
     rep.set("slices", json!(slices));
-    rep.rule = "all closed extended formulae with at most max_nodes nodes that contain a wild-card or a domain, plus the extended template families (nested and repeated domains, the same inner domain under different outer domains, pattern and duplicate shapes inside domain scopes) and the pair family (every ordered pair of the collision alphabet joined by & / |, and nested as Q{x} in %d%: (A & @{x}: B)), x every label family (context-set assignment; the mixed family also under the label names 1, false, True / 0, true, V, under non-ASCII label names, with the context sets loaded from a bundle that also holds decoy entries (sub-directory, other suffixes; stored before / after the real entries), with a public evaluation context extended twice (second registration of every label with the complement set), and with every quantifier written in its long spelling \\exists / \\forall / \\bind / \\jump), through model_check_extended_formula(_dirty), compared with the explicit-state oracle on every state x valid colour (and: raw results inside the unit set, independent of spare variables); plus the operator sweep: every unary/binary operator and every quantifier form with/without domains on EVERY coloured set (and every pair of sets) of tiny networks; plus, on synthetic wide models with more than 2^53 state x colour pairs, the three README equivalences for 7 bodies x 7 domains (full, empty, all but one state, all but one (state, colour) pair, one state, ...) and the closed forms `!{x} in %d%: True` = d, `3{x} in %d%: @{x}: ~%d%` = empty, `V{x} in %d%: @{x}: %d%` = everything; distinct_nontrivial = distinct non-trivial (network, labels, verdict table)".into();
+    rep.rule = "all closed extended formulae with at most max_nodes nodes that contain a wild-card or a domain, plus the extended template families (nested and repeated domains, the same inner domain under different outer domains, pattern and duplicate shapes inside domain scopes, a closed sub-formula inside a restricted scope next to a jump and again outside it) and the pair family (every ordered pair of the collision alphabet joined by & / |, and nested as Q{x} in %d%: (A & @{x}: B)), x every label family (context-set assignment; the mixed family also under the label names 1, false, True / 0, true, V, under non-ASCII label names, with the context sets loaded from a bundle that also holds decoy entries (sub-directory, other suffixes; stored before / after the real entries), with a public evaluation context extended twice (second registration of every label with the complement set), and with every quantifier written in its long spelling \\exists / \\forall / \\bind / \\jump), through model_check_extended_formula(_dirty), compared with the explicit-state oracle on every state x valid colour (and: raw results inside the unit set, independent of spare variables); plus the operator sweep: every unary/binary operator and every quantifier form with/without domains on EVERY coloured set (and every pair of sets) of tiny networks; plus, on synthetic wide models with more than 2^53 state x colour pairs, the three README equivalences for 7 bodies x 7 domains (full, empty, all but one state, all but one (state, colour) pair, one state, ...) and the closed forms `!{x} in %d%: True` = d, `3{x} in %d%: @{x}: ~%d%` = empty, `V{x} in %d%: @{x}: %d%` = everything; distinct_nontrivial = distinct non-trivial (network, labels, verdict table)".into();
     Ok(rep)
 }
 
